@@ -1854,3 +1854,53 @@ func runC08OneOfPresence(c *Ctx) {
 		c.Undecided("constructions of nil-guarded one-of alternatives in pdata", "-", "none found")
 	}
 }
+
+// ---------- C17.R8: every shard gets a pending batch of its own ----------
+func runC17FreshBatch(c *Ctx, funcs []*ssa.Function) {
+	p := c.P
+	c.Rule("R8", "OWN", "the batch factory handed to the generic batch processor creates a new pending batch on every call (the value it returns is produced by a call made inside the factory, never a captured variable): two metadata groups never share one pending batch", 3)
+	n := 0
+	for _, fn := range funcs {
+		if fn.Parent() == nil || len(fn.Params) != 0 || fn.Signature.Results().Len() != 1 {
+			continue
+		}
+		rt := fn.Signature.Results().At(0).Type()
+		if _, isIface := rt.Underlying().(*types.Interface); !isIface {
+			continue
+		}
+		// the interface with add/itemCount/export: the batch
+		if !hasMethod(rt, "itemCount") || !hasMethod(rt, "export") {
+			continue
+		}
+		n++
+		fresh := true
+		for _, r := range returnsOf(fn) {
+			v := resultsOf(r)[0]
+			ok := false
+			var walk func(x ssa.Value, d int)
+			walk = func(x ssa.Value, d int) {
+				if d > 4 {
+					return
+				}
+				switch y := x.(type) {
+				case *ssa.MakeInterface:
+					walk(y.X, d+1)
+				case *ssa.ChangeInterface:
+					walk(y.X, d+1)
+				case *ssa.Call:
+					ok = true
+				case *ssa.Alloc:
+					ok = y.Parent() == fn
+				}
+			}
+			walk(v, 0)
+			if !ok {
+				fresh = false
+			}
+		}
+		c.Check(fresh, "batch factory "+fnName(fn)+" returns a new batch on every call", p.Pos(fn.Pos()), "result of a constructor call made in the factory", "the factory returns a captured batch object: every shard (metadata group) adds to and exports the same pending batch – records of different groups are mixed and sent under the wrong group's metadata, and the size trigger fires on the total across groups")
+	}
+	if n == 0 {
+		c.Undecided("batch factories", "-", "none found")
+	}
+}
